@@ -159,8 +159,8 @@ class Opt:
 class AccList:
     """loop-carried list of a slice: unknown prefix, tracked appends.  last: value of [-1] when nothing was appended"""
 
-    def __init__(self, name, last=None, items=None):
-        self.name, self.last, self.items = name, last, list(items or [])
+    def __init__(self, name, last=None, items=None, first=None):
+        self.name, self.last, self.items, self.first = name, last, list(items or []), first
 
     def extend(self, vals):
         self.items.extend(vals)
